@@ -389,4 +389,112 @@ theorem supports_fuel (c : Collect) (parts : List Name) (hc : ∀ h ∈ c, headW
   have hwf : treeWF (.and [.simple n, t]) = true := by simp [treeWF, treeWFL, ht]
   exact matches_fuel _ false _ _ hwf hsorted (hsm _ hh) (hf _ hh)
 
+
+theorem toplevel_NF : ∀ (acc : List Tree) (nm : Name), NF (toplevel acc nm)
+  | [], _ => by simp only [toplevel]; exact NF_ok _
+  | [.simple n], nm => by
+    simp only [toplevel]
+    split
+    · exact NF_ok _
+    · exact NF_ok _
+  | .simple n :: x :: rest', nm => by
+    simp only [toplevel]
+    split
+    · exact NF_ok _
+    · exact toplevel_NF rest' nm
+  | .and _ :: _, _ => by simp only [toplevel]; exact NF_crash _
+  | .or _ :: _, _ => by simp only [toplevel]; exact NF_crash _
+  | .andor _ :: _, _ => by simp only [toplevel]; exact NF_crash _
+termination_by acc => acc.length
+
+theorem smallOrTL_iff (l : List Tree) : smallOrTL l ↔ ∀ t ∈ l, smallOrT t := by
+  induction l with
+  | nil => simp [smallOrTL]
+  | cons a l ih => simp [smallOrTL, ih]
+
+/-- `supports` terminates on every request, the combo case included, when the fuel also covers the joined list -/
+theorem supports_fuel_all (c : Collect) (mult parts : List Name) (hc : ∀ h ∈ c, headWF h = true)
+    (hsm : ∀ h ∈ c, smallOrT h) (hf : ∀ h ∈ c, capT h + 2 * szT h + 2 ≤ defaultFuel c)
+    (hfj : ∀ joined, joinLists c (mkEnts mult parts) = .ok joined →
+      capT (.and joined) + 2 * szT (.and joined) + 2 ≤ defaultFuel c) :
+    NF (supports c mult parts) := by
+  have hn : names (mkEnts mult parts) = mkNames parts := by
+    simp [names, mkEnts, List.map_map, Function.comp_def]
+  have hsorted : (names (mkEnts mult parts)).Pairwise (· < ·) := by rw [hn]; exact sorted_mkNames parts
+  have hwfh : ∀ h ∈ c, treeWF h = true ∧ ∃ ch, h = .and ch := by
+    intro h hh
+    obtain ⟨n, t, rfl, ht⟩ := headWF_shape (hc h hh)
+    exact ⟨by simp [treeWF, treeWFL, ht], _, rfl⟩
+  unfold supports supportsEnts
+  split
+  · -- joinLists has no fuel
+    have hjl : NF (joinLists c (mkEnts mult parts)) := by
+      unfold joinLists
+      have inner : ∀ (node : ENode) (l : List Tree) (acc : List Tree), NF (l.foldlM (fun acc' h =>
+          match buildList h, superOf h with
+          | some list, some sup =>
+            if containsWalk list [node.name] then do
+              let already ← toplevel acc' sup
+              pure (if already then acc' else acc' ++ h.children)
+            else pure acc'
+          | _, _ => Outcome.crash .badHead) acc) := by
+        intro node l
+        induction l with
+        | nil => intro acc; simp only [List.foldlM]; exact NF_pure _
+        | cons a l ih =>
+          intro acc
+          simp only [List.foldlM_cons]
+          refine NF_bind ?_ (fun b _ => ih b)
+          split
+          · split
+            · refine NF_bind ?_ (fun _ _ => NF_pure _)
+              exact toplevel_NF _ _
+            · exact NF_pure _
+          · exact NF_crash _
+      generalize ([] : List Tree) = acc0
+      generalize mkEnts mult parts = es
+      induction es generalizing acc0 with
+      | nil => simp only [List.foldlM]; exact NF_pure _
+      | cons e es ih =>
+        simp only [List.foldlM_cons]
+        refine NF_bind ?_ (fun b _ => ih b)
+        split
+        · exact NF_pure _
+        · exact inner e c acc0
+    refine NF_bind hjl (fun joined hj => ?_)
+    split
+    · exact NF_crash _
+    · rename_i hemp
+      split
+      · exact NF_crash _
+      · obtain ⟨hs0, a1, a2⟩ := joinLists_from c _ joined hj
+        have hne : joined ≠ [] := by
+          intro e; rw [e] at hemp; simp at hemp
+        have hmemj : ∀ t ∈ joined, ∃ ch, .and ch ∈ c ∧ t ∈ ch := by
+          intro t ht
+          rw [a2] at ht
+          obtain ⟨l, hl, htl⟩ := List.mem_flatten.mp ht
+          obtain ⟨h0, hh0, rfl⟩ := List.mem_map.mp hl
+          obtain ⟨_, ch, rfl⟩ := hwfh h0 (a1 h0 hh0)
+          exact ⟨ch, a1 _ hh0, htl⟩
+        have hwf : treeWF (.and joined) = true := by
+          simp only [treeWF, Bool.and_eq_true, Bool.not_eq_true', List.isEmpty_eq_false_iff]
+          refine ⟨hne, (treeWFL_iff _).mpr ?_⟩
+          intro t ht
+          obtain ⟨ch, hch, htc⟩ := hmemj t ht
+          have w := (hwfh _ hch).1
+          simp only [treeWF, Bool.and_eq_true] at w
+          exact (treeWFL_iff _).mp w.2 t htc
+        have hsmj : smallOrT (.and joined) := by
+          simp only [smallOrT]
+          apply (smallOrTL_iff _).mpr
+          intro t ht
+          obtain ⟨ch, hch, htc⟩ := hmemj t ht
+          have w := hsm _ hch
+          simp only [smallOrT] at w
+          exact (smallOrTL_iff _).mp w t htc
+        exact matches_fuel _ true _ _ hwf hsorted hsmj (hfj joined hj)
+  · refine foldlM_NF (fun h hh => ?_) false
+    exact matches_fuel _ false _ _ (hwfh h hh).1 hsorted (hsm _ hh) (hf _ hh)
+
 end StepModel.Complex.Match
